@@ -63,7 +63,9 @@ def r1_acquire_critical_section(chk: Check):
         chk.require(len(decs) == 1 and src(decs[0].ast.value) == "dependency.count" and any(g.dominates(b, decs[0]) for b in gb), chk.fkey(f, "grant decrements"),
                     f"{qual}: a granted request must decrement available by the requested count, only on the granted branch", loc)
         held_stmt = t.stmt
-        held = _with_locks(t.ast, need)
+        held = _with_locks(t.ast, need) | (_with_locks(t.stmt, need) if t.stmt is not None else set())
+        if t.stmt is not None and isinstance(t.stmt, (ast.With, ast.AsyncWith)):
+            held |= {src(i.context_expr) for i in t.stmt.items}
         chk.require(need <= held, chk.fkey(f, "test under locks"), f"{qual}: the capacity test is made under {sorted(held)}; it needs {sorted(need)}", loc)
         for d in decs:
             chk.require(need <= _with_locks(d.ast, need), chk.fkey(f, "decrement under locks"), f"{qual}: the decrement is not under {sorted(need)}", loc)
